@@ -9,6 +9,19 @@
    models: the model sorts).  Outcome codes: 0 page, 11 invalid token, 12 type mismatch,
    13 validation, 14 internal/other, 20 panic, 30 runaway/out of fuel. *)
 
+(* Cross-check of extraction: with ORACLE_DUMP=<file> the values the extracted model computes for a
+   case are appended to that file (before any comparison with the implementation);
+   bin/coqreplay_c14.py recomputes the same numbers inside Coq with vm_compute.
+   Encoding: outcome = code, #items, sum of item ids, token length, sum of token bytes;
+   traversal = the same four numbers per page (without code), then the ending code. *)
+let dump_chan = match Sys.getenv_opt "ORACLE_DUMP" with
+  | Some p when p <> "" -> Some (open_out_gen [Open_append; Open_creat] 0o644 p)
+  | _ -> None
+let dump id (nums : int list) = match dump_chan with
+  | Some ch -> output_string ch (id ^ " " ^ String.concat " " (List.map string_of_int nums) ^ "\n"); flush ch
+  | None -> ()
+let sum_n l = List.fold_left (fun a x -> a + int_of_n x) 0 l
+
 let z_of_int (i : int) : z =
   if i = 0 then Z0 else if i > 0 then Zpos (pos_of_int i) else Zneg (pos_of_int (- i))
 
@@ -51,6 +64,12 @@ let show_pages ps = String.concat " " (List.map (fun (items, t) -> Printf.sprint
 
 let end_code = function EndMarker -> 0 | Failed e -> err_code e | Panicked -> 20 | OutOfFuel -> 30
 
+let enc_outcome = function
+  | Page (items, t) -> [0; List.length items; sum_n items; List.length t; sum_n t]
+  | Rejected e -> [err_code e; 0; 0; 0; 0]
+  | Panic -> [20; 0; 0; 0; 0]
+let enc_pages ps = List.concat (List.map (fun (items, t) -> [List.length items; sum_n items; List.length t; sum_n t]) ps)
+
 (* hypotheses of the paging_exact theorems, re-checked on the data of every traversal *)
 let precondition api backend rows =
   let keys = List.map fst rows in
@@ -74,12 +93,13 @@ let f _id vs =
     let psi = as_int ps in
     if psi > 100000 then "DIFF page size outside the range the model is run on" else
     let rows = rows_of rows in
+    let st = step api backend rows (z_of_int psi) (as_cbytes ty) in
+    let fuel = nat_of_int (List.length rows + 3) in
+    let (mp, me) = if api = 1 then follow_changes fuel st [] else follow fuel st [] in
+    dump _id (enc_pages mp @ [end_code me]);
     (match precondition api backend rows with
      | Some why -> "DIFF precondition: " ^ why
      | None ->
-       let st = step api backend rows (z_of_int psi) (as_cbytes ty) in
-       let fuel = nat_of_int (List.length rows + 3) in
-       let (mp, me) = if api = 1 then follow_changes fuel st [] else follow fuel st [] in
        let model = Printf.sprintf "%s ;%d" (show_pages mp) (end_code me) in
        let obs_pages = List.map (fun p -> match as_list p with
            | [ids; t] -> Printf.sprintf "[%s]%s"
@@ -98,6 +118,7 @@ let f _id vs =
     let tokc = as_cbytes tok in
     let dec = if as_bool b64ok then Some tokc else None in
     let m = with_b64 dec (step api backend rows (z_of_int psi) (as_cbytes ty)) in
+    dump _id (enc_outcome m);
     let model = show_outcome m and obs = show_obs outcome in
     if model = obs then "OK"
     else if obs = "20" then "PROP panic on token " ^ hex_of_string (as_bytes tok) ^ " model=" ^ model
@@ -131,7 +152,9 @@ let f _id vs =
       | 1 -> changes_sql_f rows (Some badc) psz tyc
       | 2 -> stores_sql_f rows (Some badc) psz
       | _ -> models_sql_f rows (Some badc) psz in
-    let mf = show_outcome (stepf tokc) and mc = show_outcome (step api 1 rows psz tyc tokc) in
+    let mfo = stepf tokc and mco = step api 1 rows psz tyc tokc in
+    dump _id (enc_outcome mfo @ enc_outcome mco);
+    let mf = show_outcome mfo and mc = show_outcome mco in
     let obf = show_obs obsf and oc = show_obs obsc in
     let is_err s = String.length s > 0 && s.[0] <> '0' && s <> "20" in
     let parts v = match as_list v with
@@ -165,6 +188,7 @@ let f _id vs =
     end
   | I "3" :: has_tk :: obj :: user :: rejected :: [] ->
     let ok = read_tk_ok (as_bool has_tk) (as_cbytes obj) (as_cbytes user) in
+    dump _id [if ok then 1 else 0];
     if ok = not (as_bool rejected) then "OK"
     else Printf.sprintf "DIFF tuple_key restriction model_ok=%b impl_rejected=%b" ok (as_bool rejected)
   | _ -> "DIFF malformed-record"
